@@ -16,6 +16,28 @@ KUNITS = {
         H('octet::verif_hooks::kani_gf::gf_exp_log_tables', True, functions=['src/octet.rs OCT_EXP / OCT_LOG']),
         H('octet::verif_hooks::kani_gf::gf_alpha_refuses_256', True, refusal=True),
     ],
+    'K-RNG': [
+        H('rng::verif_hooks::kani_rng::rand_matches_rfc', True, functions=['src/rng.rs rand']),
+        H('rng::verif_hooks::kani_rng::v_tables_match_pin', True, functions=['src/rng.rs V0..V3']),
+        H('rng::verif_hooks::kani_rng::rand_refuses_zero_modulus', True, refusal=True),
+        H('base::verif_hooks::kani_tuple::deg_matches_rfc', True, functions=['src/base.rs deg']),
+        H('base::verif_hooks::kani_tuple::deg_refuses_large_v', True, refusal=True),
+        H('base::verif_hooks::kani_tuple::tuple_matches_rfc', True, functions=['src/base.rs intermediate_tuple (rand, deg inlined)'], timeout='30m'),
+    ],
+    'K-TAB': [
+        H('systematic_constants::verif_hooks::kani_tab::tables_match_pin', True, functions=['src/systematic_constants.rs SYSTEMATIC_INDICES_AND_PARAMETERS, P1_TABLE']),
+        H('systematic_constants::verif_hooks::kani_tab::row_facts_0', True, covers=False),
+        H('systematic_constants::verif_hooks::kani_tab::row_facts_1', True, covers=False),
+        H('systematic_constants::verif_hooks::kani_tab::row_facts_2', True, covers=False),
+        H('systematic_constants::verif_hooks::kani_tab::row_facts_3', True, covers=False),
+        H('systematic_constants::verif_hooks::kani_tab::lookups_return_least_row', True, timeout='30m',
+          functions=['src/systematic_constants.rs extended_source_block_symbols, systematic_index, num_ldpc_symbols, num_hdpc_symbols, num_lt_symbols, num_intermediate_symbols, num_pi_symbols, calculate_p1']),
+        H('systematic_constants::verif_hooks::kani_tab::lookups_refuse_large_k', True, refusal=True),
+    ],
+    'K-ENCIDX': [
+        H('constraint_matrix::verif_hooks::kani_encidx::enc_indices_matches_rfc', True, unwind_is_obligation=True, timeout='30m',
+          functions=['src/constraint_matrix.rs enc_indices']),
+    ],
     'K-OTI': [
         H('base::verif_hooks::kani_oti::oti_new_reports_arguments', True, functions=['src/base.rs ObjectTransmissionInformation::new + accessors']),
     ],
@@ -32,6 +54,13 @@ PROPS = {
         explanation='ObjectTransmissionInformation::new (extracted, rule A2: each assert becomes a refusal) accepts exactly oti_valid(F,T,Z,Al) '
                     'for all machine inputs with T,Z,Al >= 1 and stores its arguments; int_div_ceil == ceil(num/denom) mod 2^32.',
         assumptions=['rule A2 panic-as-result transformation models refusal', 'Verus/Z3 and vstd arithmetic lemmas are sound'],
+        not_decided=[]),
+    'C15': dict(
+        level='proof', units=[('K', 'K-TAB', None), ('K', 'K-RNG', None), ('K', 'K-ENCIDX', None)],
+        explanation='complete Kani harnesses on the real functions: every table row (symbolic row index / exhaustive concrete loops), every K <= 56403, '
+                    'every ISI < 2^24 + K\' for every row, every in-range tuple for enc_indices; RFC oracles in u64; automatic overflow/bounds/panic checks on every path',
+        assumptions=['pinned table transcription (/verif/spec/rfc_tables.rs) equals RFC 6330 sections 5.5/5.6 (RFC text not available offline)',
+                     'RFC oracles /verif/spec/rfc.rs transcribed from RFC 6330 5.3.5.1-5.3.5.4', 'CBMC/cadical sound'],
         not_decided=[]),
     'C10': dict(
         level='proof', units=[('K', 'K-GF', None)],
